@@ -1,6 +1,7 @@
 import Spine.Heartbeat
 import Spine.HeartbeatSeq
 import Spine.HBCounter
+import Spine.HBCounterWeakest
 import Spine.HBRefresh
 import Spine.Period
 /-!
@@ -118,6 +119,20 @@ example : HBC.Calm {} [.draw 1, .store 1, .draw 2, .store 2, .draw 1, .store 1] 
     as a finding. -/
 theorem c16_counter_unrestricted_refuted : (HBC.run [.draw 1, .draw 2, .store 2, .store 1]).stored = [2, 1] :=
   HBC.overtaking_witness
+
+/-- A-inflight is the WEAKEST condition on draws: whenever, in any schedule, stream `k` draws its counter while the
+    refresh of another stream is in flight (the one draw `Calm` forbids), the schedule has a continuation — `store k`,
+    then the store of that other refresh — in which the stored counters are NOT strictly increasing. Together with
+    `c16_counter_increasing`: strict growth in all continuations ⇔ every draw is calm. -/
+theorem c16_calm_is_weakest (evs : List HBC.Ev) (k : Nat) (h1 : (HBC.run evs).inflight ≠ [])
+    (h2 : (HBC.run evs).inflight.any (·.1 = k) = false) :
+    ∃ j, ¬ (HBC.run (evs ++ [.draw k, .store k, .store j])).stored.Pairwise (· < ·) :=
+  HBC.calm_is_weakest evs k h1 h2
+
+/-- non-vacuity: stream 1 has drawn 3 and not stored it; stream 2 draws -/
+example : (HBC.run [.draw 1, .store 1, .draw 2, .store 2, .draw 1]).inflight = [(1, 3)] ∧
+    (HBC.run ([.draw 1, .store 1, .draw 2, .store 2, .draw 1] ++ [.draw 2, .store 2, .store 1])).stored = [1, 2, 4, 3] := by
+  decide
 
 /-- "every refresh is notified to the subscribers of the device-diagnosis feature": for any duplicate-free set of
     subscribers and every schedule of draws and stores by any number of streams, every subscriber has received
